@@ -3,6 +3,10 @@ From Coq Require Import ZArith List Bool.
 Import ListNotations.
 From Verif Require Import Base.PyValue Model.Eval Model.Order Model.Exec Model.Subquery
      Proofs.EvalProofs Proofs.SubqueryProofs.
+(* required here, imported just before the C08_source_* section (name clashes: eval, exec, Ok) *)
+From Coq Require String.
+From Verif Require Model.PyMini Model.PrimsApi Model.PrimsCompiler Model.PrimsSubquery Gen.SrcSubquery
+     Proofs.SrcSubquery Model.Compile.
 Open Scope nat_scope.
 
 (* FROM (subquery): the outer query sees exactly the subquery's visible result rows *)
@@ -46,3 +50,117 @@ Example C08_example :
                                 (STable [[VInt 1; VInt 10]; [VInt 2; VInt 20]; [VNull; VInt 30]; [VInt 3; VInt 40]])))
   = [[VInt 20]; [VInt 40]].
 Proof. reflexivity. Qed.
+
+(* ------------------------------------------------------------------------------------------------------------------
+   Tie by translation (harness/PYMINI.md).  Gen/SrcSubquery.v holds the PyMini terms translated on every run from the
+   SOURCE of SubqueryTable.__init__ / __iter__, EvalConstantSubquery1D.__init__ / __call__, EvalBinaryOp.__call__ and
+   the functions of the IN / NOT IN overloads, plus the structure of the column factory SubqueryTable.column read off
+   its AST.  The theorems below are re-checked against those terms: a change of the code changes the terms.
+   Encodings of the Python objects and the assumed behaviour of the opaque callables: Model/PrimsSubquery.v. *)
+Import Coq.Strings.String.
+Import Verif.Model.PyMini Verif.Model.PrimsApi Verif.Model.PrimsCompiler Verif.Model.PrimsSubquery
+       Verif.Gen.SrcSubquery Verif.Proofs.SrcSubquery.
+Open Scope nat_scope.
+Open Scope string_scope.
+
+(* the class made by SubqueryTable.column reads, with operator.itemgetter, the factory's FIRST parameter (the position
+   __init__ hands over), takes its datatype from the THIRD, and is an EvalColumn *)
+Theorem C08_source_column_factory :
+  fa_name column_factory = "beanquery.query_compile.SubqueryTable.column" /\
+  List.length (fa_params column_factory) = 3 /\
+  nth_error (fa_params column_factory) 0 = Some (fa_accessor column_factory) /\
+  nth_error (fa_params column_factory) 2 = Some (fa_dtype column_factory) /\
+  fa_bases column_factory = ["beanquery.query_compile.EvalColumn"].
+Proof. exact column_factory_shape. Qed.
+Print Assumptions C08_source_column_factory.
+
+(* SubqueryTable.__init__ on a fresh instance, for EVERY list of targets: `columns` becomes the insertion-ordered dict
+   obtained by dict_set over the visible targets in order (a later duplicate name replaces the value and keeps the
+   place), each value being the column object made for the target's position among the visible targets and its
+   datatype; forgetting the positions, it is the column list of Compile.subquery_table *)
+Theorem C08_source_subquery_table : forall call_ref tbl kcol pts q,
+  Compile.cq_targets q = map (target_of tbl) pts ->
+  ref_of refs "beanquery.query_compile.SubqueryTable.column" = Some kcol ->
+  (forall j t n, nth_error (Compile.visible (Compile.cq_targets q)) j = Some t -> Compile.ct_name t = Some n ->
+     factory_behaves call_ref kcol [PInt (Z.of_nat j); PStr n; PStr (Compile.dtype (Compile.ct_expr t))]) ->
+  let cols := sub_columns (Compile.cq_targets q) in
+  call_method call_ref (prim_subquery tbl) subq_table_init [] [enc_query pts] =
+    PyMini.Ok ([("columns", enc_columns cols); ("subquery", enc_query pts)], PNone)
+  /\ map proj_col cols = Compile.t_cols (Compile.subquery_table q).
+Proof. exact subquery_table_init_model. Qed.
+Print Assumptions C08_source_subquery_table.
+
+(* SubqueryTable.__iter__: the rows of FROM (q over s) are what execute_query returns for the subquery, unchanged *)
+Theorem C08_source_subquery_iter : forall call_ref tbl kexec flds Q cols q s,
+  ref_of refs "beanquery.query_execute.execute_query" = Some kexec ->
+  lookup "subquery" flds = Some Q ->
+  call_ref kexec [Q] = PTuple [cols; rows_pv (Verif.Model.Exec.exec q (rows_of s))] ->
+  call_method call_ref (prim_subquery tbl) subq_table_iter flds [] = PyMini.Ok (flds, rows_pv (rows_of (SSub q s))).
+Proof. exact subquery_iter_rows_of. Qed.
+Print Assumptions C08_source_subquery_iter.
+
+(* EvalConstantSubquery1D.__init__ parks the sentinel MARKER in `value` *)
+Theorem C08_source_in_subquery_init : forall call_ref tbl klist kmark Q,
+  ref_of refs "builtins.list" = Some klist ->
+  ref_of refs "beanquery.query_compile.MARKER" = Some kmark ->
+  call_method call_ref (prim_subquery tbl) subq_in_init [] [Q] =
+  PyMini.Ok ([("dtype", PRef klist); ("subquery", Q); ("value", PRef kmark)], PNone).
+Proof. exact in_subquery_init_src. Qed.
+Print Assumptions C08_source_in_subquery_init.
+
+(* first call: the subquery is executed; the value is Subquery.items_of its rows (None when there is no row) and is
+   stored on the node *)
+Theorem C08_source_in_subquery_items : forall call_ref tbl kexec kmark flds ctx Q cols q s,
+  ref_of refs "beanquery.query_execute.execute_query" = Some kexec ->
+  ref_of refs "beanquery.query_compile.MARKER" = Some kmark ->
+  lookup "subquery" flds = Some Q -> lookup "value" flds = Some (PRef kmark) ->
+  call_ref kexec [Q] = PTuple [cols; rows_pv (Verif.Model.Exec.exec q (rows_of s))] ->
+  q_vis q <> [] ->
+  let v := items_pv (items_of (rows_of (SSub q s))) in
+  call_method call_ref (prim_subquery tbl) subq_in_call flds [ctx] = PyMini.Ok (update "value" v flds, v).
+Proof. exact in_subquery_items_src. Qed.
+Print Assumptions C08_source_in_subquery_items.
+
+(* later calls: the stored value is returned, the node is unchanged, and NOTHING is assumed of the opaque callables -
+   execute_query is not called again, whatever it would return or raise *)
+Theorem C08_source_in_subquery_cached : forall call_ref tbl kmark flds ctx items,
+  ref_of refs "beanquery.query_compile.MARKER" = Some kmark ->
+  lookup "value" flds = Some (items_pv items) ->
+  call_method call_ref (prim_subquery tbl) subq_in_call flds [ctx] = PyMini.Ok (flds, items_pv items).
+Proof. exact in_subquery_cached_src. Qed.
+Print Assumptions C08_source_in_subquery_cached.
+
+(* the IN / NOT IN node (EvalBinaryOp.__call__ over the function every registered overload wraps) computes Eval.eval's
+   clause for EIn: NULL left operand -> NULL; no row (None) -> NULL; else membership under Python == *)
+Theorem C08_source_in_node : forall call_ref tbl ctx r st (negate : bool) ka kb kop a items,
+  child call_ref ctx r st ka a -> call_ref kb [ctx] = items_pv items ->
+  op_is call_ref tbl kop (if negate then subq_not_in else subq_in) ->
+  let flds := [("left", PRef ka); ("right", PRef kb); ("operator", PRef kop)] in
+  call_method call_ref (prim_subquery tbl) subq_node_binary flds [ctx] =
+  expect flds (Verif.Model.Eval.eval r st (EIn negate a items)).
+Proof. exact in_node_src. Qed.
+Print Assumptions C08_source_in_node.
+
+(* the translated __init__ run on four targets, one hidden, two named x: x keeps the first place and reads position 2 *)
+Definition ex_tbl (i : nat) : Compile.cnode :=
+  nth i [Compile.NCol "a" "int"; Compile.NCol "h" "str"; Compile.NCol "b" "Decimal"; Compile.NCol "c" "date"]
+      Compile.NSub1D.
+Definition ex_pts : list ptarget := [(0, Some "x", false); (1, None, false); (2, Some "y", false); (3, Some "x", false)].
+Definition ex_objs : list pv := [colobj 0 "x" "int"; colobj 1 "y" "Decimal"; colobj 2 "x" "date"].
+Definition ex_call_ref (k : nat) (args : list pv) : pv :=
+  match k, args with
+  | 0, [PV (VInt i); _; _] => PRef (10 + Z.to_nat i)
+  | _, _ => nth (k - 10) ex_objs PNone
+  end.
+Example C08_source_example :
+  call_method ex_call_ref (prim_subquery ex_tbl) subq_table_init [] [enc_query ex_pts] =
+  PyMini.Ok ([("columns", enc_columns [("x", (2, "date")); ("y", (1, "Decimal"))]); ("subquery", enc_query ex_pts)], PNone).
+Proof. vm_compute. reflexivity. Qed.
+(* ... and the hypothesis of C08_source_subquery_table about the opaque factory is satisfiable: this oracle meets it *)
+Example C08_source_example_factory : forall j t n,
+  nth_error (Compile.visible (map (target_of ex_tbl) ex_pts)) j = Some t -> Compile.ct_name t = Some n ->
+  factory_behaves ex_call_ref 0 [PInt (Z.of_nat j); PStr n; PStr (Compile.dtype (Compile.ct_expr t))].
+Proof.
+  intros [|[|[|[|j]]]] t n H Hn; cbn in H; try discriminate; injection H as <-; injection Hn as <-;
+    eexists; split; reflexivity.
+Qed.
